@@ -255,6 +255,14 @@ def write_root(path, files, r=0, decoys=True, reverse=False):
                 fh.write(swc_text(8, i))
         for d in DECOY_DIRS:
             os.makedirs(os.path.join(path, d), exist_ok=True)
+        # folders that are symbolic LINKS to a sibling / an ancestor folder (data sets assembled with links): their content is reachable
+        # through the real folder already and must not be listed a second time (or for ever)
+        for name, target in (("zz-link-to-sub", "sub"), (os.path.join("sub", "zz-link-up"), os.pardir)):
+            if os.path.isdir(os.path.join(path, os.path.dirname(name))):
+                try:
+                    os.symlink(target, os.path.join(path, name), target_is_directory=True)
+                except OSError:
+                    pass
 
 
 def is_swc_name(name):
